@@ -14,7 +14,7 @@ PROFILES = {
     'C01': {'op_w': dict(BASE_OPS, transfer=16), 'same_plate_p': 0.4, 'unit_w': {'L': 4, 'g': 3, 'mol': 3, 'U': 2}},
     'C02': {'op_w': dict(BASE_OPS, transfer=20, remove=0.5, dilute=0.5), 'unit_w': {'L': 3, 'g': 3, 'mol': 3, 'U': 3},
             'q_w': [10, 1, 0.5, 0.2, 0.2, 0.05, 0.5, 2], 'long': True},
-    'C03': {'op_w': dict(BASE_OPS, transfer=10, fill_to=4, dilute=2.5, new_container=3),
+    'C03': {'op_w': dict(BASE_OPS, transfer=10, fill_to=4, dilute=2.5, new_container=3, drain_fresh=0.4),
             'q_w': [3, 2, 1.5, 2, 2, 1, 0.5, 1.5], 'fill_w': [4, 2, 1, 1, 1.5, 1, 1, 1.5, 0.4, 0.4],
             'cap_w': [1, 4, 2, 2, 1.5, 0.6], 'dil_w': [5, 2, 3, 0.3, 3]},
     'C04': {'op_w': dict(BASE_OPS, hold_slice=1.5, remove=3, fill_to=3, dilute=2.5, solution=1.5), 'stale_p': 0.3, 'dil_w': [6, 2, 1.5, 1.5, 1]},
